@@ -72,6 +72,18 @@ def event_job(job):
                 for i in range(0, nv, max(1, nv // 40)):
                     ev.append({"kind": "pos", "beta": bits(beta[i]), "s": bits(s), "R": bits(g.earth_radius), "latS": bits(latS[i]), "lonS": bits(lonS[i]),
                                "lat": bits(la[i]), "lon": bits(lo[i]), "_m": dict(spec, s=s, beta_deg=float(np.degrees(beta[i])))})
+        # the same object thrown again with other numbers that keep the SAME number of trajectories (a permutation of the batch):
+        # positions must belong to the new trajectories
+        perm = rng.permutation(u.shape[1])
+        g.throw(u[:, perm].copy())
+        m2 = np.asarray(g.event_mask)
+        if int(m2.sum()):
+            beta2, lat2, lon2 = g.beta_rad(), g.latS[m2], g.longS[m2]
+            la, lo = g.find_lat_long_along_traj(np.full(int(m2.sum()), 120.0))
+            for i in range(0, int(m2.sum()), max(1, int(m2.sum()) // 40)):
+                ev.append({"kind": "pos", "beta": bits(beta2[i]), "s": bits(120.0), "R": bits(g.earth_radius), "latS": bits(lat2[i]),
+                           "lonS": bits(lon2[i]), "lat": bits(la[i]), "lon": bits(lo[i]),
+                           "_m": dict(spec, s=120.0, beta_deg=float(np.degrees(beta2[i])), rethrown=True)})
         out = g(u.copy())
         for x in out:
             ev.append({"kind": "ret", "nkept": int(np.asarray(g.event_mask).sum()), "nret": int(len(x)), "_m": dict(spec)})
@@ -95,6 +107,10 @@ def quad_job(job):
         u = np.stack([p[0], p[1], np.full(p.shape[1], 0.5), np.repeat(d, k)])
         g.throw(u)
         nv = int(np.asarray(g.event_mask).sum())
+        if nv:
+            # an optical-like evaluation with a tight cone cut first, as compute() does before the radio channel: the geometry-only
+            # value of the next call must not remember it
+            g.mcintegral(np.ones(nv), float(np.cos(0.2 * cfg.simulation.max_cherenkov_angle)), np.ones(nv), 0.0, 1.0, 1.0)
         est = g.mcintegral(np.ones(nv), -1.0, np.ones(nv), 0.0, 1.0, 1.0)[1] if nv else 0.0
         tot += float(est) * u.shape[1]
         cnt += u.shape[1]
